@@ -11,8 +11,17 @@
      parse / render / wf_stream the manifest grammar: parse m = Some ss means m is a valid manifest with
                                 streams ss (name, locators hash+size+hints, file tokens); render is its inverse
      rw_stream r                the stream with every hint that begins with the letter A turned into R<r>-...
-     legacy_rewrite             fed_collections.go rewriteSignatures *)
+     legacy_rewrite             fed_collections.go rewriteSignatures
+   Legacy request path seen from the client (model/C18_fan_model.v, model/C18_fan_run.v):
+     hanswer                    what a cluster answers: HResp code body (ANY status code; body = collection record
+                                BCol pdh manifest, error document, or not JSON), HFail (transport error), HHang
+     fres                       what the client of the controller gets: FRes code (Some manifest | None)
+     fan_get req local arrivals fetchRemoteCollectionByPDH: answer of the local cluster, then the answers of the
+                                remotes in the order in which they complete;  fan_try = one per-remote goroutine
+     fan_uuid known r a         fetchRemoteCollectionByUUID for a uuid of cluster r
+     legacy_stream              locators plain or signed in the shape SignedLocatorRe accepts, no CR *)
 From Coq Require Import NArith List Ascii String Bool Permutation.
+From AV Require Import model.C18_fan_model model.C18_fan_run proofs.C18_fan_proofs.
 From AV Require Import lib.Str lib.Md5 lib.TokSplit lib.ManifestTok model.C18_model model.C18_run
   proofs.C18_scan proofs.C18_get proofs.C18_legacy proofs.C18_spec.
 Import ListNotations.
@@ -145,3 +154,90 @@ Print Assumptions C18_model_meets_spec_uuid.
 Theorem C18_model_meets_spec_rw : forall m r, remote_ok r m (rewrite_manifest m r) = true.
 Proof. exact model_meets_spec_rw. Qed.
 Print Assumptions C18_model_meets_spec_rw.
+
+(* ---------- legacy request path, whole fan-out: every status code, every body ---------- *)
+
+(* what rewriteSignatures' verdict means on a valid manifest with plain or properly signed locators: the record
+   carries the expected hash, the manifest really hashes to it, and the output differs only in the A-hints *)
+Theorem C18_legacy_verified_means : forall r e p m ss out,
+  parse m = Some ss -> forallb legacy_stream ss = true ->
+  legacy_rewrite r e p m = LOk out ->
+  (e = "" \/ e = p) /\ pdh m = p /\ out = render (map (rw_stream r) ss).
+Proof. exact legacy_verified_means. Qed.
+Print Assumptions C18_legacy_verified_means.
+Theorem C18_legacy_honest_verifies : forall r e p m ss,
+  parse m = Some ss -> forallb legacy_stream ss = true -> e = "" \/ e = p -> pdh m = p ->
+  legacy_rewrite r e p m = LOk (render (map (rw_stream r) ss)).
+Proof. exact legacy_honest_verifies. Qed.
+Print Assumptions C18_legacy_honest_verifies.
+
+(* an answer whose status is not exactly 200 is never a candidate, whatever its body *)
+Theorem C18_fan_try_only_200 : forall req r c b, c <> 200%N -> fan_try req (r, HResp c b) = None.
+Proof. exact fan_try_only_200. Qed.
+Print Assumptions C18_fan_try_only_200.
+
+(* a manifest reaches the client only with status 200, and it is the output of rewriteSignatures for an answer that
+   some remote gave with status 200 and that passed the check against the requested hash *)
+Theorem C18_fan_only_verified_200_is_relayed : forall req lb arr c m',
+  fan_get req (HResp 404 lb) arr = FRes c (Some m') ->
+  c = 200%N /\ exists r b p m, In (r, HResp 200 b) arr /\ body_col b = Some (p, m) /\ legacy_rewrite r req p m = LOk m'.
+Proof. exact fan_only_verified_200_is_relayed. Qed.
+Print Assumptions C18_fan_only_verified_200_is_relayed.
+
+(* no verified status-200 answer: an error status (404 if every remote said 404, else 502), in every arrival order;
+   in particular when the remotes answer with any statuses other than 200 - 1xx, 2xx, 3xx, 4xx, 5xx - and any bodies *)
+Theorem C18_fan_unverified_yields_error : forall req lb arr,
+  (forall ra, In ra arr -> fan_try req ra = None) ->
+  fan_get req (HResp 404 lb) arr = FRes (if forallb (fun ra => h404 (snd ra)) arr then 404 else 502)%N None.
+Proof. exact fan_unverified_yields_error. Qed.
+Print Assumptions C18_fan_unverified_yields_error.
+Theorem C18_fan_other_status_never_relayed : forall req lb arr,
+  (forall r c b, In (r, HResp c b) arr -> c <> 200%N) ->
+  exists c, fan_get req (HResp 404 lb) arr = FRes c None /\ (c = 404 \/ c = 502)%N.
+Proof. exact fan_other_status_never_relayed. Qed.
+Print Assumptions C18_fan_other_status_never_relayed.
+
+(* a remote whose answer verifies makes the fetch succeed in every arrival order, whatever the others answer *)
+Theorem C18_fan_honest_remote_wins : forall req lb arr ra out,
+  In ra arr -> fan_try req ra = Some out ->
+  forall arr', Permutation arr arr' -> exists out', fan_get req (HResp 404 lb) arr' = FRes 200 (Some out').
+Proof. exact fan_honest_remote_wins. Qed.
+Print Assumptions C18_fan_honest_remote_wins.
+
+(* any answer of the local cluster other than 404 is final and no remote is asked *)
+Theorem C18_fan_local_answer_final : forall req c b arr, c <> 404%N ->
+  fan_get req (HResp c b) arr = FRes c (body_manifest b) /\ fan_remotes_asked (HResp c b) = false.
+Proof. exact fan_local_answer_final. Qed.
+Print Assumptions C18_fan_local_answer_final.
+
+(* the boolean specification with which the evaluator of stage c18fan judges what the client received
+   (model/C18_fan_run.v: spec_fget, spec_fuuid, vouches, honest) is met by the model for every request, every
+   local answer, every list of remote answers (any status, any body) in every order ... *)
+Theorem C18_fan_model_meets_spec : forall req local arr, spec_fget req local arr (fan_get req local arr) = true.
+Proof. exact fan_model_meets_spec. Qed.
+Print Assumptions C18_fan_model_meets_spec.
+Theorem C18_fan_uuid_meets_spec : forall known r a, spec_fuuid r known a (fan_uuid known r a) = true.
+Proof. exact fan_uuid_meets_spec. Qed.
+Print Assumptions C18_fan_uuid_meets_spec.
+(* ... and this is what it says: a manifest only with status 200 and only vouched for by a status-200 answer whose
+   manifest hashes to the requested value and differs only in the rewritten A-hints; otherwise an error status, and
+   only if no remote gave an honest answer *)
+Theorem C18_spec_fget_reads : forall req lb arr c om, spec_fget req (HResp 404 lb) arr (FRes c om) = true ->
+  match om with
+  | Some m' =>
+    c = 200%N /\
+    exists r b p m, In (r, HResp 200 b) arr /\ body_col b = Some (p, m) /\
+      forall ss, parse m = Some ss -> forallb legacy_stream ss = true ->
+                 pdh m = (if req =? "" then p else req) /\ m' = render (map (rw_stream r) ss)
+  | None =>
+    (400 <= c)%N /\
+    forall r p m ss, In (r, HResp 200 (BCol p m)) arr -> p = (if req =? "" then p else req) ->
+                     parse m = Some ss -> forallb legacy_stream ss = true -> pdh m <> p
+  end.
+Proof. exact spec_fget_reads. Qed.
+Print Assumptions C18_spec_fget_reads.
+Theorem C18_spec_fuuid_reads : forall r known a m', spec_fuuid r known a (FRes 200 (Some m')) = true ->
+  known = true /\ exists b p m, a = HResp 200 b /\ body_col b = Some (p, m) /\
+    forall ss, parse m = Some ss -> forallb legacy_stream ss = true -> pdh m = p /\ m' = render (map (rw_stream r) ss).
+Proof. exact spec_fuuid_reads. Qed.
+Print Assumptions C18_spec_fuuid_reads.
